@@ -117,10 +117,13 @@ fn main() {
             let ctx = Ctx { prop: id.clone(), tier, seed, workers };
             start_watchdog(if tier == Tier::Quick { wd / 4 } else { wd }, id.clone());
             let rep = Report::new(&id);
-            // C17 / C19: another, smaller CL ciphersuite is used before anything else in this process (also before the
-            // regression replays); the checks record it in their notes
-            if id == "C17" || id == "C19" {
-                let _ = zkverif::cl::other_suite_first();
+            // CL properties: another, smaller CL ciphersuite is used before anything else in this process (also before
+            // the regression replays)
+            if ["C13", "C14", "C15", "C16", "C17", "C18", "C19"].contains(&id.as_str()) {
+                let went = zkverif::cl::other_suite_first();
+                if !["C17", "C19"].contains(&id.as_str()) {
+                    rep.note(format!("a complete run (key generation, issuance, presentation) under a 512-bit parameter set declared through CLCiphersuite preceded everything else in this process (went through: {})", went));
+                }
             }
             // regressions first
             let rdir = format!("{}/regressions/{}", verif_dir(), id);
